@@ -34,42 +34,52 @@ class DifferenceFormatter:
         """
         locale = self._locale if locale is None else Locale.load(locale)
 
-        if diff.years > 0:
-            unit = "year"
-            count = diff.years
+        # The components of a negative duration (or of an inverted interval)
+        # are negative: the direction is given by ``invert``
+        years, months, weeks = abs(diff.years), abs(diff.months), abs(diff.weeks)
+        days, hours, minutes = (
+            abs(diff.remaining_days),
+            abs(diff.hours),
+            abs(diff.minutes),
+        )
+        seconds = abs(diff.remaining_seconds)
 
-            if diff.months > 6:
+        if years > 0:
+            unit = "year"
+            count = years
+
+            if months > 6:
                 count += 1
-        elif diff.months == 11 and (diff.weeks * 7 + diff.remaining_days) > 15:
+        elif months == 11 and (weeks * 7 + days) > 15:
             unit = "year"
             count = 1
-        elif diff.months > 0:
+        elif months > 0:
             unit = "month"
-            count = diff.months
+            count = months
 
-            if (diff.weeks * 7 + diff.remaining_days) >= 27:
+            if (weeks * 7 + days) >= 27:
                 count += 1
-        elif diff.weeks > 0:
+        elif weeks > 0:
             unit = "week"
-            count = diff.weeks
+            count = weeks
 
-            if diff.remaining_days > 3:
+            if days > 3:
                 count += 1
-        elif diff.remaining_days > 0:
+        elif days > 0:
             unit = "day"
-            count = diff.remaining_days
+            count = days
 
-            if diff.hours >= 22:
+            if hours >= 22:
                 count += 1
-        elif diff.hours > 0:
+        elif hours > 0:
             unit = "hour"
-            count = diff.hours
-        elif diff.minutes > 0:
+            count = hours
+        elif minutes > 0:
             unit = "minute"
-            count = diff.minutes
-        elif 10 < diff.remaining_seconds <= 59:
+            count = minutes
+        elif 10 < seconds <= 59:
             unit = "second"
-            count = diff.remaining_seconds
+            count = seconds
         else:
             # We check if the "a few seconds" unit exists
             time = locale.get("custom.units.few_second")
@@ -93,7 +103,7 @@ class DifferenceFormatter:
                 return t.cast(str, locale.get(key).format(time))
             else:
                 unit = "second"
-                count = diff.remaining_seconds
+                count = seconds
 
         if count == 0:
             count = 1
